@@ -45,9 +45,16 @@ func (c Coverage2) Index(gi GlyphID) (int, bool) {
 }
 
 func (cr Coverage2) Len() int {
+	// 1 + the maximum index returned by Index: for a well formed table,
+	// it is the sum of the sizes of the ranges
 	size := 0
 	for _, r := range cr.Ranges {
-		size += int(r.EndGlyphID - r.StartGlyphID + 1)
+		if r.EndGlyphID < r.StartGlyphID {
+			continue
+		}
+		if end := int(r.StartCoverageIndex) + int(r.EndGlyphID-r.StartGlyphID) + 1; end > size {
+			size = end
+		}
 	}
 	return size
 }
